@@ -224,13 +224,8 @@ theorem dropInactive_both {s s' : State} {pid : Nat} (hb : Both s) (hi : Inv s) 
 
 theorem runProposalMsgs_both {ms : List Msg} {s : State} (hc : execInCacheCtx = true) (hb : Both s) :
     Both (runProposalMsgs ms s).1 := by
-  unfold runProposalMsgs
-  simp only [hc, if_true]
-  split
-  · rename_i s' h
-    have f := execMsgs_frame _ _ _ h
-    exact both_of_eq hb f.1 f.2.2.2.2.2.2.2.1 f.2.2.2.1 f.2.2.2.2.1 f.2.2.2.2.2.2.2.2
-  · exact hb
+  have f := runProposalMsgs_same hc ms s
+  exact both_of_eq hb f.1 f.2.2.2.2.2.2.2.1 f.2.2.2.1 f.2.2.2.2.1 f.2.2.2.2.2.2.2.2
 
 /-- an active-queue entry after `Tally`: the proposal is in its voting period and its votes have been removed -/
 theorem finishTally_both {s s' : State} {pid : Nat} {p : Proposal} {passes burn : Bool} {res : Nat × Nat × Nat × Nat}
@@ -239,6 +234,7 @@ theorem finishTally_both {s s' : State} {pid : Nat} {p : Proposal} {passes burn 
     (h : finishTally passes burn res p pid s = .ok s') : Both s' := by
   have hpid : p.id = pid := findProp_id hp
   unfold finishTally at h
+  simp only [hsh, Bool.not_true, Bool.false_and, Bool.false_eq_true, if_false] at h
   simp only [hsh, if_true] at h
   -- the settlement keeps props, queues and votes
   have settle : ∀ s1 : State,
@@ -268,13 +264,8 @@ theorem finishTally_both {s s' : State} {pid : Nat} {p : Proposal} {passes burn 
           s3.active = removeQ (p.votingEnd, pid) s1.active ∧ s3.votes = s1.votes := by
         have : s3 = (runProposalMsgs p.msgs { s1 with active := removeQ (p.votingEnd, pid) s1.active }).1 := by rw [hr]
         rw [this]
-        unfold runProposalMsgs
-        simp only [hc, if_true]
-        split
-        · rename_i s' hx
-          have f := execMsgs_frame _ _ _ hx
-          exact ⟨f.1, f.2.2.2.2.2.2.2.1, f.2.2.2.1, f.2.2.2.2.1, f.2.2.2.2.2.2.2.2⟩
-        · exact ⟨rfl, rfl, rfl, rfl, rfl⟩
+        have f := runProposalMsgs_same hc p.msgs { s1 with active := removeQ (p.votingEnd, pid) s1.active }
+        exact ⟨f.1, f.2.2.2.2.2.2.2.1, f.2.2.2.1, f.2.2.2.2.1, f.2.2.2.2.2.2.2.2⟩
       refine ⟨?_, ?_⟩
       · show QI (putProp s3.props _) s3.nextId s3.inactive s3.active
         rw [fr.1, fr.2.1, fr.2.2.1, fr.2.2.2.1]
@@ -402,6 +393,7 @@ theorem endBlock_total {s : State} {stk : Staking} (h1 : inactiveSettleShapeOk =
       have tot : ∃ s', finishTally passes burn (n.yes / DEC, n.abstain / DEC, n.no / DEC, n.veto / DEC) p0 id
           { s with votes := votesNot s.votes id } = .ok s' := by
         unfold finishTally
+        simp only [h2, Bool.not_true, Bool.false_and, Bool.false_eq_true, if_false]
         simp only [h2, if_true]
         by_cases hk : (p0.expedited && !passes) = true
         · simp only [hk, Bool.not_true, Bool.false_eq_true, if_false]
@@ -430,6 +422,7 @@ theorem endBlock_total {s : State} {stk : Staking} (h1 : inactiveSettleShapeOk =
       -- read the active queue off `finishTally`
       have hact : (t', id') ∈ s'.active := by
         unfold finishTally at hs'
+        simp only [h2, Bool.not_true, Bool.false_and, Bool.false_eq_true, if_false] at hs'
         simp only [h2, if_true] at hs'
         have settle : ∀ s1 : State,
             (if (!(p0.expedited && !passes)) = true then (if burn = true then burnDeposits id { s with votes := votesNot s.votes id }
@@ -455,12 +448,7 @@ theorem endBlock_total {s : State} {stk : Staking} (h1 : inactiveSettleShapeOk =
             have : s3.active = removeQ (p0.votingEnd, id) s1.active := by
               have e3 : s3 = (runProposalMsgs p0.msgs { s1 with active := removeQ (p0.votingEnd, id) s1.active }).1 := by rw [hr']
               rw [e3]
-              unfold runProposalMsgs
-              simp only [h3, if_true]
-              split
-              · rename_i sx hx2
-                exact (execMsgs_frame _ _ _ hx2).2.2.2.2.1
-              · rfl
+              exact (runProposalMsgs_same h3 p0.msgs { s1 with active := removeQ (p0.votingEnd, id) s1.active }).2.2.2.2.1
             show (t', id') ∈ s3.active
             rw [this]; exact hm
           · split at hs'
